@@ -91,6 +91,8 @@ class CFG(object):
         if is_noreturn_stmt(e):
             n.kind = 'abort'
             return [], []
+        if e.k == 'Int':                       # while (1), do ... while (0): the other edge does not exist
+            return ([(n.id, True)], []) if e.a.get('value') else ([], [(n.id, False)])
         return [(n.id, True)], [(n.id, False)]
 
     # ---- statements: returns list of dangling outs
